@@ -95,12 +95,100 @@ def decode(enc, valuation, rnd=None, pick=0, keymap=None):
         else:
             its.sort()
         return dict((keymap.get(k, k) if keymap else k, decode(v, valuation, rnd, pick, keymap)) for k, v in its)
-    if enc.get("e") == 50:
-        return enc["v"]           # a key used as a string value (str_to_dict without value)
+    if enc.get("e") in (50, 60):
+        return enc["v"]           # a key used as a string value (str_to_dict without value); the caller's mark
     ctors = PYCLASSES[valuation[enc["v"]]][2]
     if rnd is not None:
         return rnd.choice(ctors)()
     return ctors[pick % len(ctors)]()
+
+
+# ---------------------------------------------------------------- object graphs (spec/CtxHeap.tla)
+def graph_symbols(x, acc=None):
+    """symbolic leaf classes (c0, c1, c2) in an environment description / program / value"""
+    if acc is None:
+        acc = set()
+    if isinstance(x, list):
+        for e in x:
+            graph_symbols(e, acc)
+    elif isinstance(x, dict):
+        if x.get("k") == "L":
+            if x["v"] in SYMBOLS:
+                acc.add(x["v"])
+        else:
+            for v in x.values():
+                if isinstance(v, (dict, list)):
+                    graph_symbols(v, acc)
+    return acc
+
+
+def has_tokens(x):
+    if isinstance(x, list):
+        return any(has_tokens(e) for e in x)
+    if isinstance(x, dict):
+        return x.get("k") == "S" or any(has_tokens(v) for v in x.values() if isinstance(v, (dict, list)))
+    return False
+
+
+def build_env(envd, valuation, rnd, cls=dict):
+    """Python objects for an environment description of CtxHeap.tla: envd["sv"][i-1] is the value of the
+    i-th shared dictionary, built ONCE; a token {"k": "S", "i": i} anywhere stands for that one object."""
+    shared = []
+
+    def build(v):
+        if v["k"] == "S":
+            return shared[v["i"] - 1]
+        if v["k"] == "D":
+            its = list(items(v))
+            rnd.shuffle(its)
+            return cls((k, build(x)) for k, x in its)
+        return decode(v, valuation, rnd)
+    for sv in envd["sv"]:
+        shared.append(build(sv))
+    return [build(r) for r in envd["roots"]]
+
+
+def touch(obj, mark_key="zz", mark="$touched"):
+    """the caller writes into every dictionary reachable from obj (each object once)"""
+    seen = set()
+    stack = [obj]
+    while stack:
+        d = stack.pop()
+        if not isinstance(d, dict) or id(d) in seen:
+            continue
+        seen.add(id(d))
+        stack.extend(d.values())
+        d[mark_key] = mark
+
+
+def alias_somewhere(rnd, args):
+    """put one sub-dictionary object of the arguments under a second key (of the same or of another
+    argument), never below itself; returns True if something was aliased"""
+    from .util import reach_ids
+    subs, dicts = [], []
+    stack = [a for a in args if isinstance(a, dict)]
+    seen = set()
+    while stack:
+        d = stack.pop()
+        if id(d) in seen:
+            continue
+        seen.add(id(d))
+        dicts.append(d)
+        for v in d.values():
+            if isinstance(v, dict):
+                subs.append(v)
+                stack.append(v)
+    if not subs:
+        return False
+    s = rnd.choice(subs)
+    inside = set(reach_ids(s)) | {id(s)}
+    targets = [d for d in dicts if id(d) not in inside]
+    if not targets:
+        return False
+    t = rnd.choice(targets)
+    keys = sorted(set(k for d in dicts for k in d if isinstance(k, str)))
+    t[rnd.choice(keys)] = s
+    return True
 
 
 def valuations(symbols, rnd, n, systematic=False):
